@@ -998,7 +998,10 @@ func (d *drv) hookStor() {
 // settle waits until the storage has been idle for a while (background work drained).
 func (d *drv) settle() {
 	last, since := atomic.LoadInt64(&d.allOps), time.Now()
-	for time.Since(since) < 60*time.Millisecond {
+	deadline := time.Now().Add(20 * time.Second)
+	for time.Since(since) < 120*time.Millisecond || (d.db != nil && !d.closed && leveldb.VerifHasFrozenMem(d.db) && time.Now().Before(deadline)) {
+		// a write buffer still waiting for (or in the middle of) its flush is in-flight work, however long the flush
+		// goroutine is kept off the CPU by other processes
 		time.Sleep(5 * time.Millisecond)
 		if n := atomic.LoadInt64(&d.allOps); n != last {
 			last, since = n, time.Now()
